@@ -391,6 +391,7 @@ func (p *sparser) primary() Expr {
 // ---------- contract files ----------
 
 type Clause struct {
+	NoAssume bool
 	Label string
 	Props []string // property ids restricting the clause; empty = function's props
 	Src   string
@@ -617,7 +618,7 @@ func (db *SpecDB) parseSpecText(text, file, pkgPath string) error {
 				}
 				cur.Ensures = append(cur.Ensures, c)
 			}
-		case "requires", "needs", "ensures", "assert", "invariant", "decreases":
+		case "requires", "needs", "ensures", "proves", "assert", "invariant", "decreases":
 			if cur == nil {
 				return fail("%s outside func", kw)
 			}
@@ -631,6 +632,12 @@ func (db *SpecDB) parseSpecText(text, file, pkgPath string) error {
 			case "needs":
 				cur.Needs = append(cur.Needs, c)
 			case "ensures":
+				cur.Ensures = append(cur.Ensures, c)
+			case "proves":
+				// a postcondition that is proved for the function but not assumed at its call sites
+				// (callers can derive it from the other clauses and the frame; assuming it would only
+				// add quantifier load)
+				c.NoAssume = true
 				cur.Ensures = append(cur.Ensures, c)
 			case "assert":
 				cur.Asserts = append(cur.Asserts, c)
